@@ -12,3 +12,5 @@ open A2l.Lim
 #print axioms outside_error
 #print axioms not_evaluated_never_errors
 #print axioms linearUnfixed_wrong
+#print axioms constant_ratfunc_never_errors
+#print axioms calcLimits_total
